@@ -116,18 +116,21 @@ VARIANTS = [
 ]
 
 
-def mk_variant(vi: int, required: bool, dflt_ix, descr=None, example=None):
+PROP_NAMES = ["p", "createdAt", "item-count", "2fa", "class", "ItemCount"]     # python_name != JSON name: camelCase, kebab, leading digit, reserved word
+
+
+def mk_variant(vi: int, required: bool, dflt_ix, descr=None, example=None, name="p"):
     lab, schema, lit, dfl = VARIANTS[vi]
     s = dict(schema)
     if set(s) == {"$ref"}:
-        return build_prop(s, required, lit)
+        return build_prop(s, required, lit, name=name)
     if dflt_ix is not None and dfl:
         s["default"] = dfl[dflt_ix % len(dfl)]
     if descr is not None:
         s["description"] = descr
     if example is not None:
         s["example"] = example
-    return build_prop(s, required, lit)
+    return build_prop(s, required, lit, name=name)
 
 
 # ------------------------------------------------------------------------------------------------ Coq encoding
@@ -299,13 +302,13 @@ REQ_DFLT_QUICK = [(0, 0, None, None), (1, 0, 0, None), (0, 1, None, 0), (1, 1, 0
 
 def merge_case(enc, c):
     """c = {v1, v2, r1, r2, d1, d2, ds1, ds2, ex1, ex2} -> (term, info) or None when the parser rejects one of the declarations."""
-    p1 = mk_variant(c["v1"], bool(c["r1"]), c["d1"], c.get("ds1"), c.get("ex1"))
-    p2 = mk_variant(c["v2"], bool(c["r2"]), c["d2"], c.get("ds2"), c.get("ex2"))
+    p1 = mk_variant(c["v1"], bool(c["r1"]), c["d1"], c.get("ds1"), c.get("ex1"), name=c.get("name", "p"))
+    p2 = mk_variant(c["v2"], bool(c["r2"]), c["d2"], c.get("ds2"), c.get("ex2"), name=c.get("name", "p"))
     if p1 is None or p2 is None:
         return None
     t1, t2 = enc.prop(p1), enc.prop(p2)       # encode BEFORE the call: merge_properties mutates prop1.inner_property of lists
     res = real_merge(p1, p2)
-    info = {"p1": VARIANTS[c["v1"]][0], "p2": VARIANTS[c["v2"]][0], **{k: c[k] for k in ("r1", "r2", "d1", "d2")},
+    info = {"p1": VARIANTS[c["v1"]][0], "p2": VARIANTS[c["v2"]][0], "name": c.get("name", "p"), **{k: c[k] for k in ("r1", "r2", "d1", "d2")},
             "impl": res[0] if res[0] != "ok" else "ok:" + type(res[1]).__name__ + (":required" if res[1].required else ":optional")
                     + (":default=" + res[1].default.python_code if res[1].default else ""),
             "impl_detail": res[1] if res[0] != "ok" else None}
@@ -324,7 +327,7 @@ def matrix_cases(rng, tier):
             if tier == "quick" and ((i in twin and j not in near) or (j in twin and i not in near)):
                 continue      # quick: the member-name twins meet only each other and the kinds an enum can merge with (thorough: everything)
             for (r1, r2, d1, d2) in combos:
-                out.append({"v1": i, "v2": j, "r1": r1, "r2": r2, "d1": d1, "d2": d2,
+                out.append({"v1": i, "v2": j, "r1": r1, "r2": r2, "d1": d1, "d2": d2, "name": PROP_NAMES[(i * 5 + j * 3 + r1 + 2 * r2) % len(PROP_NAMES)],
                             "ds1": "d1" if (i + j + r1) % 3 == 0 else None, "ds2": "d2" if (i + r2) % 2 else None,
                             "ex1": "e1" if (j + r1) % 4 == 0 else None, "ex2": "e2" if (i + j) % 5 == 0 else None})
     # numeric / string cluster with every default, including the non-finite and out-of-range ones (MCrash paths)
@@ -339,7 +342,7 @@ def matrix_cases(rng, tier):
     # random: extra defaults (non-finite floats, huge ints: the Crash paths), descriptions / examples present or absent
     n = 1000 if tier == "quick" else 12000
     for _ in range(n):
-        out.append({"v1": rng.randrange(nv), "v2": rng.randrange(nv), "r1": rng.randrange(2), "r2": rng.randrange(2),
+        out.append({"v1": rng.randrange(nv), "v2": rng.randrange(nv), "r1": rng.randrange(2), "r2": rng.randrange(2), "name": rng.choice(PROP_NAMES),
                     "d1": rng.choice([None, 0, 1, 2, 3, 4]), "d2": rng.choice([None, 0, 1, 2, 3, 4]),
                     "ds1": rng.choice([None, "d1", "dx"]), "ds2": rng.choice([None, "d2", "dx"]),
                     "ex1": rng.choice([None, "e1"]), "ex2": rng.choice([None, "e2", "e1"])})
@@ -355,7 +358,7 @@ for _lab, _extra in (("float", ["inf", "nan", 10 ** 310]), ("int", [10 ** 310, "
 
 
 # ------------------------------------------------------------------------------------------------ stage B, part 2: collect
-POOL_NAMES = ["a", "b", "c", "d"]
+POOL_NAMES = ["a", "b", "c", "d"]     # (kept for replays of older cases)
 COLLECT_SCHEMAS = [
     {"type": "integer"}, {"type": "number"}, {"type": "string"}, {"type": "string", "format": "date"}, {"type": "string", "format": "date-time"},
     {"type": "string", "enum": ["a", "b"]}, {"type": "string", "enum": ["a", "b", "c"]}, {"type": "integer", "enum": [1, 2]}, {},
@@ -365,7 +368,12 @@ COLLECT_SCHEMAS = [
 ]
 
 
-def rand_object(rng, nprops=(1, 3), weights=None):
+# the properties dict of _process_properties is keyed by the JSON name; python_name differs for every pool but the first
+NAME_POOLS = [["a", "b", "c", "d"], ["createdAt", "item-count", "2fa", "class"], ["itemCount", "ItemCount", "user-id", "from"], ["ID", "HTTPCode", "is_ok", "Self"]]
+
+
+def rand_object(rng, nprops=(1, 3), pool=None):
+    POOL_NAMES = pool or NAME_POOLS[0]
     names = rng.sample(POOL_NAMES, rng.randint(*nprops))
     props = {n: copy.deepcopy(rng.choice(COLLECT_SCHEMAS[:8] if rng.random() < 0.6 else COLLECT_SCHEMAS)) for n in names}
     o = {"type": "object", "properties": props}
@@ -378,12 +386,13 @@ def rand_object(rng, nprops=(1, 3), weights=None):
 def collect_doc(rng):
     """components: leaf parents P0..Pk, optionally a composed parent Q = allOf[P*, inline], child C = allOf[...] + own properties."""
     comps = {}
+    pool = NAME_POOLS[0] if rng.random() < 0.3 else rng.choice(NAME_POOLS[1:])
     k = rng.randint(1, 3)
     for i in range(k):
-        comps[f"P{i}"] = rand_object(rng)
+        comps[f"P{i}"] = rand_object(rng, pool=pool)
     parents = list(comps)
     if rng.random() < 0.4:
-        comps["Q"] = {"allOf": [REF(rng.choice(parents))] + ([rand_object(rng, (1, 2))] if rng.random() < 0.7 else [])}
+        comps["Q"] = {"allOf": [REF(rng.choice(parents))] + ([rand_object(rng, (1, 2), pool=pool)] if rng.random() < 0.7 else [])}
         parents.append("Q")
     members = []
     for _ in range(rng.randint(1, 4)):
@@ -391,15 +400,15 @@ def collect_doc(rng):
         if r < 0.55:
             members.append(REF(rng.choice(parents)))
         elif r < 0.8:
-            members.append(rand_object(rng, (1, 2)))
+            members.append(rand_object(rng, (1, 2), pool=pool))
         else:       # a member that only constrains: `required` (naming own / inline / $ref'd properties), no `properties`
-            m = {"required": rng.sample(POOL_NAMES, rng.randint(1, 2))}
+            m = {"required": rng.sample(pool, rng.randint(1, 2))}
             if rng.random() < 0.5:
                 m["type"] = "object"
             members.append(m)
     child = {"allOf": members}
     if rng.random() < 0.5:
-        own = rand_object(rng, (1, 2))
+        own = rand_object(rng, (1, 2), pool=pool)
         child["properties"] = own["properties"]
         if "required" in own:
             child["required"] = own["required"]
@@ -620,6 +629,26 @@ FOCI = [["int", "number", "any"], ["str", "date", "enum_s", "any"], ["str", "dat
         ["int", "number", "enum_i"], ["str", "uuid"], ["bool", "int"]]
 
 
+PNAME_SCHEMES = [None,
+                 {"pa": "createdAt", "pb": "item-count", "pc": "2fa", "pq": "class"},
+                 {"pa": "itemCount", "pb": "user-id", "pc": "9lives", "pq": "from"},
+                 {"pa": "ID", "pb": "HTTPCode", "pc": "is_ok", "pq": "Self"}]
+
+
+def pn(spec, n):
+    """JSON name of a property of the spec (the spec is written over the neutral ids pa / pb / pc / pq)"""
+    return (spec.get("pnames") or {}).get(n, n)
+
+
+def py_names(spec, ids):
+    """{python attribute name: property id} the generator is expected to use for one class: PythonIdentifier of the JSON name; names
+    that collide after snake_case fall back to the raw name (C09's business; used here only to find the attributes)"""
+    from openapi_python_client.utils import PythonIdentifier
+    d = {i: str(PythonIdentifier(pn(spec, i), "field_")) for i in ids}
+    clash = {i for i in ids if sum(1 for j in ids if d[j] == d[i]) > 1}
+    return {(str(PythonIdentifier(pn(spec, i), "field_", skip_snake_case=True)) if i in clash else v): i for i, v in d.items()}
+
+
 def nm(spec, ident):
     """document name of a model of the spec (the spec itself is written over the neutral ids P<i> / C<i>)"""
     return spec.get("names", {}).get(ident, ident)
@@ -666,6 +695,8 @@ def rand_doc_spec(rng, tier):
         avail.append(f"C{i}")          # later composed models may use earlier ones: chains
     order = list(spec["leaves"]) + list(spec["composed"])
     rng.shuffle(order)                 # parents declared after children
+    if rng.random() < 0.65:
+        spec["pnames"] = rng.choice(PNAME_SCHEMES[1:])      # the properties dict is keyed by the JSON name, not by python_name
     if rng.random() < 0.4:
         spec["names"] = suffix_names(spec, rng)
         if rng.random() < 0.6:           # youngest first: every child precedes every parent it extends
@@ -693,6 +724,7 @@ def exhaustive_pair_specs(both_modes=True):
                             "order": ["C0", "P0", "P1"] if (i + j) % 3 == 0 else ["P0", "P1", "C0"]}
                 else:
                     spec = {"leaves": {}, "composed": {"C0": {"members": [("inline", o1), ("inline", o2)], "own": None}}, "order": ["C0"]}
+                spec["pnames"] = PNAME_SCHEMES[len(out) % len(PNAME_SCHEMES)]
                 out.append(spec)
     return out
 
@@ -701,6 +733,14 @@ def fixed_specs():
     """one deterministic witness per known finding (so each reproduces on every run) + a late-parent chain"""
     P = lambda **props: {"props": props, "required": []}
     return [
+        # shared properties whose python_name differs from the JSON name: int+number -> int, str+date -> date, required = OR
+        {"leaves": {"P0": {"props": {"pa": {"k": "int"}, "pb": {"k": "str"}, "pc": {"k": "enum_s", "vals": ["a", "b", "c"]}, "pq": {"k": "any"}}, "required": []},
+                    "P1": {"props": {"pa": {"k": "number"}, "pb": {"k": "date"}, "pc": {"k": "enum_s", "vals": ["a", "b"]}, "pq": {"k": "bool"}}, "required": ["pa", "pq"]}},
+         "composed": {"C0": {"members": [("ref", "P1"), ("ref", "P0")], "own": None},
+                      "C1": {"members": [("ref", "P1"), ("inline", {"props": {"pa": {"k": "int"}, "pb": {"k": "str"}}, "required": ["pb"]})], "own": None}},
+         "order": ["P0", "P1", "C0", "C1"], "pnames": PNAME_SCHEMES[1]},
+        {"leaves": {"P0": {"props": {"pa": {"k": "int"}, "pb": {"k": "str"}}, "required": ["pb"]}, "P1": {"props": {"pa": {"k": "number"}, "pb": {"k": "date"}}, "required": ["pa"]}},
+         "composed": {"C0": {"members": [("ref", "P1"), ("ref", "P0")], "own": None}}, "order": ["C0", "P0", "P1"], "pnames": {"pa": "itemCount", "pb": "ItemCount"}},
         # children declared BEFORE the parents they extend, names suffix-related (Pet / NewPet; Item -> BaseItem -> AbstractBaseItem), and a control
         {"leaves": {"P0": {"props": {"pa": {"k": "str"}, "pb": {"k": "str"}}, "required": ["pa"]}},
          "composed": {"C0": {"members": [("ref", "P0"), ("inline", {"props": {"pc": {"k": "int"}}, "required": ["pc"]})], "own": None}},
@@ -743,13 +783,14 @@ def fixed_specs():
     ]
 
 
-def obj_schema(o):
+def obj_schema(o, spec=None):
+    spec = spec or {}
     if not o["props"]:      # a member that only constrains
         s = {"type": "object"} if len(o["required"]) % 2 == 0 else {}
     else:
-        s = {"type": "object", "properties": {n: schema_of(d) for n, d in o["props"].items()}}
+        s = {"type": "object", "properties": {pn(spec, n): schema_of(d) for n, d in o["props"].items()}}
     if o["required"]:
-        s["required"] = list(o["required"])
+        s["required"] = [pn(spec, n) for n in o["required"]]
     return s
 
 
@@ -758,15 +799,15 @@ def doc_of(spec, reverse=False):
     comps = dict(LEAF_MODELS)
     for name in (spec["order"][::-1] if reverse else spec["order"]):
         if name in spec["leaves"]:
-            comps[nm(spec, name)] = obj_schema(spec["leaves"][name])
+            comps[nm(spec, name)] = obj_schema(spec["leaves"][name], spec)
         else:
             c = spec["composed"][name]
-            ms = [REF(nm(spec, m[1])) if m[0] == "ref" else obj_schema(m[1]) for m in c["members"]]
+            ms = [REF(nm(spec, m[1])) if m[0] == "ref" else obj_schema(m[1], spec) for m in c["members"]]
             if reverse:
                 ms = ms[::-1]
             s = {"allOf": ms}
             if c["own"] is not None:
-                o = obj_schema(c["own"])
+                o = obj_schema(c["own"], spec)
                 if "properties" in o:
                     s["properties"] = o["properties"]
                 if "required" in o:
@@ -909,7 +950,12 @@ def stage_c_worker(spec):
             diags.append([(h or "") + " " + (d or "") for _, h, d in g.diag()])
             mf = {}
             t = class_table(g.files(), mf)
-            tabs.append({inv.get(k, k): v for k, v in t.items()})
+            t = {inv.get(k, k): v for k, v in t.items()}
+            for cid in list(t):
+                if cid in cls_of:
+                    back = py_names(spec, list(spec["leaves"][cid]["props"]) if cid in spec["leaves"] else list(flatten(spec, cid)["decls"]))
+                    t[cid] = {back.get(a, a): v for a, v in t[cid].items()}
+            tabs.append(t)
             modfiles.update({inv.get(k, k): p for k, p in mf.items()})
         obs.update(tables=tabs, diags=diags, excs=excs, modfiles=modfiles)
         # round trips for the composed classes of order 0 and 1
@@ -935,7 +981,10 @@ def stage_c_worker(spec):
                     outside.append("zzz" if enums[0]["k"] == "enum_s" else 99)
                     for v in outside[:5]:
                         rejects.append({"attr": n, "value": v, "inst": {**inst_full, n: v}})
-            missing = {n: {k: v for k, v in inst_full.items() if k != n} for n in f["required_spec"]}
+            wire = lambda inst: {pn(spec, k): v for k, v in inst.items()}       # the wire carries the JSON names
+            missing = {n: wire({k: v for k, v in inst_full.items() if k != n}) for n in f["required_spec"]}
+            rejects = [{**q, "inst": wire(q["inst"])} for q in rejects]
+            inst_full, inst_min = wire(inst_full), wire(inst_min)
             for i in (0, 1):
                 if cname in tabs[i]:
                     jobs.append({"id": f"{cname}/{i}", "pkg": f"pk{i}", "cls": cls_of[cname], "instances": [inst_full, inst_min] if roundtrip else [], "missing": missing if roundtrip else {},
@@ -1205,8 +1254,8 @@ def run(run, tier, replay=None):
         infos.append((c, info))
         run.note_case({"merge": c, "impl": info["impl"]}, nontrivial=c["v1"] != c["v2"], kind="merge:" + info["impl"].split(":")[0])
         # direct oracle: required-or, member-order symmetry of the type
-        q1 = mk_variant(c["v1"], bool(c["r1"]), c["d1"], c.get("ds1"), c.get("ex1"))
-        q2 = mk_variant(c["v2"], bool(c["r2"]), c["d2"], c.get("ds2"), c.get("ex2"))
+        q1 = mk_variant(c["v1"], bool(c["r1"]), c["d1"], c.get("ds1"), c.get("ex1"), name=c.get("name", "p"))
+        q2 = mk_variant(c["v2"], bool(c["r2"]), c["d2"], c.get("ds2"), c.get("ex2"), name=c.get("name", "p"))
         back = real_merge(q2, q1)
         if res[0] == "crash":
             numeric = any(t in res[1] for t in ("cannot convert float", "too large to convert"))
@@ -1256,8 +1305,8 @@ def run(run, tier, replay=None):
     if sym_pending:
         gt = []
         for c, info, s1, s2 in sym_pending:
-            p1 = mk_variant(c["v1"], bool(c["r1"]), c["d1"])
-            p2 = mk_variant(c["v2"], bool(c["r2"]), c["d2"])
+            p1 = mk_variant(c["v1"], bool(c["r1"]), c["d1"], name=c.get("name", "p"))
+            p2 = mk_variant(c["v2"], bool(c["r2"]), c["d2"], name=c.get("name", "p"))
             gt.append(f"g_merge {enc.prop(p1)} {enc.prop(p2)}")
         outside = set(run_cases(enc.header(), gt))
         for k, (c, info, s1, s2) in enumerate(sym_pending):
